@@ -493,6 +493,10 @@ class Project(MessageHandler):
         # then A should also be ALAP (scheduled as late as possible)
         self._propagateALAPMode(scIdx)
 
+        # Containers that consist of dated milestones only are complete already; tasks
+        # that depend on them must not wait for another leaf to be placed first.
+        self._updateContainerTaskStatus(scIdx)
+
         # Only care about leaf tasks that aren't scheduled already
         tasks: list[Any] = [t for t in all_tasks if t.leaf() and not t.get("scheduled", scIdx)]
 
@@ -548,7 +552,9 @@ class Project(MessageHandler):
 
         Also compute start/end dates for container tasks based on children.
         """
-        for task in self.tasks:
+        # Children are declared after their container: walk backwards so that an inner
+        # container is completed before the container around it is looked at.
+        for task in reversed(list(self.tasks)):
             if task.leaf():
                 continue  # Skip leaf tasks
 
